@@ -18,6 +18,8 @@ Finite product, enumerated completely:
                  {"cust", a built-in name, ""}
   validators     Draft 3 / 4 / 6 / 7 classes
   position       `format` at the top of the schema / below `properties`
+                 (thorough: also below items, additionalProperties, behind $ref;
+                 a second valid/invalid string per family; ten more non-strings)
 
 Oracle: the small model `expected()` below, written from the documentation of
 FormatChecker and of the `format` keyword -- nothing else.
@@ -60,15 +62,52 @@ def _family(name):
     return "email" if f == "idn-email" else f
 
 
-STRINGS = []
-for _n in REGISTERED:
-    for _s in STRINGS_BY_FAMILY.get(_family(_n), ()):
-        if _s not in STRINGS:
-            STRINGS.append(_s)
-STRINGS.append("")
+MORE_STRINGS_BY_FAMILY = {      # thorough tier: a second valid / invalid pair
+    "ipv4": ("1.2.3.4", "01.2.3.4"),
+    "ipv6": ("1:2:3:4:5:6:7:8", "fe80::1%eth0"),
+    "date": ("1999-12-31", "2020-13-01"),
+    "email": ("@", "a.b"),
+    "regex": ("(a)\\1", "("),
+    "time": ("00:00:00", "1:2"),
+    "idn-hostname": ("\xdf.de", "-a"),
+}
+
+
+def strings(tier):
+    out = []
+    tables = [STRINGS_BY_FAMILY] + ([MORE_STRINGS_BY_FAMILY] if tier == "thorough" else [])
+    for table in tables:
+        for n in REGISTERED:
+            for s in table.get(_family(n), ()):
+                if s not in out:
+                    out.append(s)
+    return out + [""]
+
+
 NONSTRINGS = [None, True, False, 0, -1, 1.5, 2 ** 32, 2 ** 128, 10 ** 400, [], ["127.0.0.1"], {}, {"a": "b"}]
-INSTANCES = STRINGS + NONSTRINGS
-POSITIONS = ("top", "properties")
+MORE_NONSTRINGS = [1, 0.0, -0.5, 1e308, 256, -2 ** 63, [0], [[]], {"": ""}, {"127.0.0.1": 0}]
+
+
+def instances(tier):
+    return strings(tier) + NONSTRINGS + (MORE_NONSTRINGS if tier == "thorough" else [])
+
+
+def positions(tier):
+    return ("top", "properties") + (("items", "additionalProperties", "ref") if tier == "thorough" else ())
+
+
+def place(pos, name, x):
+    """-> (schema, instance, path of x inside the instance)"""
+    f = {"format": name}
+    if pos == "top":
+        return f, x, []
+    if pos == "properties":
+        return {"properties": {"p": f}}, {"p": x}, ["p"]
+    if pos == "items":
+        return {"items": f}, [x], [0]
+    if pos == "additionalProperties":
+        return {"additionalProperties": f}, {"k": x}, ["k"]
+    return {"definitions": {"f": f}, "$ref": "#/definitions/f"}, x, []
 
 _pref = [n for n in ("ipv4", "date", "regex") if n in CLASS_REGISTRY]
 SUBSET_BASE = (_pref + [n for n in sorted(CLASS_REGISTRY) if n not in _pref])[:3]
@@ -195,8 +234,7 @@ def jtype(x):
 
 def observe(built, d, pos, name, x):
     """Run the real code three ways; every observation is a small tuple."""
-    schema = {"format": name} if pos == "top" else {"properties": {"p": {"format": name}}}
-    inst = x if pos == "top" else {"p": x}
+    schema, inst, where = place(pos, name, x)
     h = built.holder
     v = CLS[d](schema, format_checker=built.chk)
     h["exc"] = None
@@ -241,7 +279,7 @@ def judge(built, d, pos, name, x):
         return "?", "?", ("checker-knows-wrong-names|%s" % cfg["kind"], {"difference": built.known_mismatch})
     exp = expected(cfg, built.known, name, x)
     ov, exc_v, oc, exc_c, of, exc_f = observe(built, d, pos, name, x)
-    where = pos_path(pos)
+    where = place(pos, name, x)[2]
     obs = ov[0] if ov[0] != "raise" else "raise-" + ename(ov[1])
 
     if cfg["kind"] == "none":
@@ -295,10 +333,6 @@ def judge(built, d, pos, name, x):
     return exp, obs, None
 
 
-def pos_path(pos):
-    return [] if pos == "top" else ["p"]
-
-
 def kind_of(cfg, known, name, x):
     """Which clause of the property the case sits under (signature material)."""
     if name not in known:
@@ -323,11 +357,13 @@ def plan(ctx):
     for d in DRAFTS:
         for i in range(0, len(CONFIGS), PER_UNIT):
             units.append((d, i))
+    INSTANCES, POSITIONS, STRINGS = instances(ctx.tier), positions(ctx.tier), strings(ctx.tier)
     ncases = len(DRAFTS) * len(CONFIGS) * len(NAMES) * len(INSTANCES) * len(POSITIONS)
     return {
         "units": units,
         "rule": ("case = (draft class, checker configuration, format name, instance, position); the full product of "
-                 "the five finite lists in bounds is executed (both tiers: the product is finite and small enough), so "
+                 "the five finite lists in bounds is executed (the thorough tier has a second valid/invalid string per "
+                 "family, ten more non-strings and three more schema positions: items, additionalProperties, $ref), so "
                  "cases are distinct by construction; each case runs iter_errors, check() and conforms() on the real "
                  "code and is compared with the model `expected`; non-trivial = a checker is given and it knows the "
                  "format name (something is decided); the remaining cases assert inertness"),
@@ -354,6 +390,7 @@ def run_unit(unit, ctx):
     ev = nt = off_would_reject = 0
     outcomes, viol, samples, seen = {}, [], [], {}
     default = FormatChecker()
+    INSTANCES, POSITIONS = instances(ctx.tier), positions(ctx.tier)
     for cfg in CONFIGS[i0:i0 + PER_UNIT]:
         built = Built(cfg)
         for name in NAMES:
